@@ -10,6 +10,8 @@
    Output:
    C id same|DIFF <model result> ## <go result>         correspondence verdict
    E id idx ok|BAD want=<spec> got=<impl>               direct search verdict (impl program vs specification)
+   K id valid|INVALID closed|OPEN:<instr> raw...        kernel_check of the implementation's program (raw-encoded); return set
+   R id valid|INVALID                                   kernel_check of a raw program given on an R line (R id n code:jt:jf:k*n)
 *)
 open Model
 
@@ -74,6 +76,13 @@ let instr_of (s : Stdlib.String.t) =
   | [ "ja"; k ] -> IJa (n_of_string k)
   | [ "ret"; v ] -> IRet (n_of_string v)
   | _ -> failwith ("bad instr " ^ s)
+
+let string_of_raw (r : sock_filter) =
+  Printf.sprintf "%s:%s:%s:%s" (string_of_n r.sf_code) (string_of_n r.sf_jt) (string_of_n r.sf_jf) (string_of_n r.sf_k)
+let raw_of (s : Stdlib.String.t) =
+  match Stdlib.String.split_on_char ':' s with
+  | [ c; jt; jf; k ] -> { sf_code = n_of_string c; sf_jt = n_of_string jt; sf_jf = n_of_string jf; sf_k = n_of_string k }
+  | _ -> failwith ("bad raw instr " ^ s)
 
 let string_of_err = function
   | EDefaultAction -> "default_action" | ENoSyscalls -> "no_syscalls" | EProblems -> "problems"
@@ -192,7 +201,25 @@ let handle_line line =
       incr n_cases;
       if mtext = gotext then Printf.printf "C %s same\n" id
       else (incr n_diff; Printf.printf "C %s DIFF %s ## %s\n" id mtext gotext);
+      (* C05: the certified checker and the return set, on the program the implementation emitted *)
+      (match goprog with
+       | Some prog ->
+           let raw = List.map encode prog in
+           let kc = kernel_check raw in
+           let allowed = ret_word k def :: List.map (fun g -> ret_word k g.g_action) groups
+                         @ (if N.eqb ai.ai_id k.k_x86_64_id then [N.coq_lor k.k_errno k.k_enosys] else []) in
+           let bad = List.filter (fun i -> match i with IRet v -> not (List.exists (N.eqb v) allowed) | _ -> false) prog in
+           Printf.printf "K %s %s %s %s\n" id (if kc then "valid" else "INVALID")
+             (match bad with [] -> "closed" | i :: _ -> "OPEN:" ^ string_of_instr i)
+             (Stdlib.String.concat " " (List.map string_of_raw raw))
+       | None -> ());
       last := LPolicy (id, le, ai, pol, goprog); evidx := 0
+  | "R" ->
+      (* raw program: the kernel verifier model *)
+      let id = next t in
+      let n = next_int t in
+      let raw = times n (fun () -> raw_of (next t)) in
+      Printf.printf "R %s %s\n" id (if kernel_check raw then "valid" else "INVALID")
   | "V" ->
       let nr = next_n t in let ar = next_n t in let ip = next_n t in
       let args = times 6 (fun () -> next_n t) in
